@@ -88,7 +88,14 @@ func mathCos(L *LState) int {
 }
 
 func mathCosh(L *LState) int {
-	L.Push(LNumber(math.Cosh(float64(L.CheckNumber(1)))))
+	x := float64(L.CheckNumber(1))
+	r := math.Cosh(x)
+	if math.IsInf(r, 1) && math.Abs(x) < 710.4758600739439 {
+		// e^|x|/2 is still finite here although e^|x| is not
+		h := math.Exp(math.Abs(x) / 2)
+		r = h * 0.5 * h
+	}
+	L.Push(LNumber(r))
 	return 1
 }
 
@@ -102,8 +109,20 @@ func mathDeg(L *LState) int {
 }
 
 func mathExp(L *LState) int {
-	L.Push(LNumber(math.Exp(float64(L.CheckNumber(1)))))
+	L.Push(LNumber(expNoEarlyOverflow(float64(L.CheckNumber(1)))))
 	return 1
+}
+
+// expNoEarlyOverflow is math.Exp, except that it does not give up before the result really
+// overflows: the amd64 implementation returns +Inf from about 709.1 on although e^x is finite up to
+// 709.78.
+func expNoEarlyOverflow(x float64) float64 {
+	r := math.Exp(x)
+	if math.IsInf(r, 1) && x < 709.782712893384 {
+		h := math.Exp(x / 2)
+		r = h * h
+	}
+	return r
 }
 
 func mathFloor(L *LState) int {
@@ -269,7 +288,14 @@ func mathSin(L *LState) int {
 }
 
 func mathSinh(L *LState) int {
-	L.Push(LNumber(math.Sinh(float64(L.CheckNumber(1)))))
+	x := float64(L.CheckNumber(1))
+	r := math.Sinh(x)
+	if math.IsInf(r, 0) && math.Abs(x) < 710.4758600739439 {
+		// e^|x|/2 is still finite here although e^|x| is not
+		h := math.Exp(math.Abs(x) / 2)
+		r = math.Copysign(h*0.5*h, x)
+	}
+	L.Push(LNumber(r))
 	return 1
 }
 
